@@ -110,3 +110,21 @@ def canonical(self, data0, context, path):
     b3 = s3.getvalue()
     lemma_hints(self, v2, b3, b1)
     assert b3 == b1, "building again gives identical bytes"
+
+
+def lazy_list(self, eager, data0, context, path, j):
+    """C16 for LazyArray: whenever the eager Array (same element construct, same count) parses the data, the lazy parse
+    succeeds, leaves the stream at the same position, and the access to any element j returns the eager value.  (Every access
+    keeps the representation invariant - contract of LazyListContainer.__getitem__ - so this holds for every access history.)"""
+    s2 = io.BytesIO(data0)
+    try:
+        ev = eager._parse(s2, context, path)
+    except Exception:
+        return
+    end = s2.tell()
+    s = io.BytesIO(data0)
+    lz = self._parse(s, context, path)
+    assert s.tell() == end, "lazy parsing leaves the stream where eager parsing leaves it"
+    if 0 <= j < len(ev):
+        v = lz[j]
+        assert v == ev[j], "an accessed element is the value eager parsing returns"
